@@ -58,14 +58,14 @@ PROPS = {
     ),
     "C06": dict(
         title="Zoned arithmetic is DST-aware: calendar units on wall clock, time units exact",
-        verus=["zoned", "tsarith", "span"],
+        verus=["zoned", "tsarith", "span", "civiladd"],
         kani_quick=[], kani_thorough=[],
         design_ref="DESIGN.md section 4, C06",
     ),
     "C13": dict(
         title="Every Zoned value is internally consistent with its time zone",
-        verus=["zoned", "ambig", "zonedround", "posix", "tzif", "tzdispatch"],
-        kani_quick=["c03_posix_wrappers"], kani_thorough=[],
+        verus=["zoned", "ambig", "zonedround", "posix", "tzif", "tzdispatch", "itime"],
+        kani_quick=["c03_posix_wrappers", "c02_wrappers"], kani_thorough=[],
         design_ref="DESIGN.md section 4, C13",
     ),
     "C18": dict(
